@@ -9,8 +9,9 @@
    functions).  All statements quantify over every program table, every action
    list, every state, value, gas allotment and fuel; a model run that exhausts
    its fuel has status OutOfFuel and never Failed/Reverted.
-   [seq a b]: same accounts (existence, nonce, balance, code, storage, suicided
-   flag - [alookup] equal at every address), same logs, same refund counter.
+   [seq a b]: same accounts (existence, nonce, balance, code, the three storage layers,
+   suicided flag - [alookup] equal at every address), same logs, same refund counter,
+   same set of objects deleted earlier in the block.
    [veq a b]: the same, except that a missing account and a pristine empty one
    are not distinguished (evm.Call materialises the callee account even for a
    zero-value call under STATICCALL; Finalise(true) removes it again - EIP-161). *)
@@ -25,9 +26,26 @@ Theorem C16_failed_call_no_trace :
   forall G P fuel k cx to gas value s r,
     r = call_frame G P (run G P fuel) k cx to gas value s ->
     r_status r = Failed \/ r_status r = Reverted ->
-    (forall a, alookup a (accts (r_st r)) = alookup a (accts s)) /\ logs (r_st r) = logs s /\ refund (r_st r) = refund s.
+    (forall a, alookup a (accts (r_st r)) = alookup a (accts s)) /\ logs (r_st r) = logs s /\
+    (refund (r_st r) = refund s /\ graves (r_st r) = graves s).
 Proof. exact failed_call_no_trace. Qed.
 Print Assumptions C16_failed_call_no_trace.
+
+(* 1a in any transaction of a block.  [block_state G P fuel txs s0] is the state in which
+   the next transaction starts after the transactions [txs] have run on s0 with
+   Finalise(true) after each (dirty storage parked in the pending layer, suicided and
+   empty touched accounts deleted, journal cleared).  A failing frame leaves every
+   account as it found it there too - in particular every slot as GetState (dirty,
+   then pending, then trie) and GetCommittedState (pending, then trie) read it. *)
+Theorem C16_failed_call_no_trace_in_block :
+  forall G P fuel txs s0 k cx to gas value r,
+    r = call_frame G P (run G P fuel) k cx to gas value (block_state G P fuel txs s0) ->
+    r_status r = Failed \/ r_status r = Reverted ->
+    seq (r_st r) (block_state G P fuel txs s0) /\
+    (forall a key, get_state a key (r_st r) = get_state a key (block_state G P fuel txs s0) /\
+                   get_committed a key (r_st r) = get_committed a key (block_state G P fuel txs s0)).
+Proof. exact failed_call_no_trace_in_block. Qed.
+Print Assumptions C16_failed_call_no_trace_in_block.
 
 (* 1b. The same for CREATE/CREATE2 frames; the only thing that may remain is the
    creator's nonce increment, which evm.create performs before taking the snapshot. *)
@@ -43,7 +61,7 @@ Print Assumptions C16_failed_create_no_trace.
    however it ends; so does a STATICCALL from any context, and any call issued
    beneath one (CALL only with zero value - the interpreter refuses the others). *)
 Theorem C16_static_pure :
-  forall G P fuel, writes_ok G = true ->
+  forall G P fuel, writes_ok G = true -> no_resurrection G = true ->
     (forall cx acts mem gas s, c_static cx = true -> veq s (r_st (run G P fuel cx acts mem gas s))) /\
     (forall k cx to gas value s, c_static cx = true \/ k = KStatic -> (k = KCall -> value = 0) ->
        veq s (r_st (call_frame G P (run G P fuel) k cx to gas value s))).
@@ -56,7 +74,7 @@ Print Assumptions C16_static_pure.
    reverted.  ([wf]: no address occurs twice in the account map - an invariant,
    also proved here.) *)
 Theorem C16_value_conserved :
-  forall G P fuel,
+  forall G P fuel, no_resurrection G = true ->
     (forall cx acts mem gas s, wf s -> let r := run G P fuel cx acts mem gas s in
        wf (r_st r) /\ total (r_st r) + r_burnt r = total s) /\
     (forall k cx to gas value s, wf s -> let r := call_frame G P (run G P fuel) k cx to gas value s in
@@ -65,6 +83,16 @@ Theorem C16_value_conserved :
        wf (r_st r) /\ total (r_st r) + r_burnt r = total s).
 Proof. exact value_conserved. Qed.
 Print Assumptions C16_value_conserved.
+
+(* 3 over a block: no value appears - execution conserves it up to the burns and Finalise
+   only removes the balances of the accounts it deletes.  This needs [no_resurrection]:
+   CreateAccount must not hand the balance of an account deleted earlier in the block to
+   the re-created one (it did until /repo commit af1e035; the translator probes it). *)
+Theorem C16_block_no_value_created :
+  forall G P fuel txs s, no_resurrection G = true -> wf s ->
+    wf (block_state G P fuel txs s) /\ total (block_state G P fuel txs s) <= total s.
+Proof. exact block_no_value_created. Qed.
+Print Assumptions C16_block_no_value_created.
 
 (* 4. Gas: what a frame hands back never exceeds what it was given - for the
    interpreter loop, for the four call kinds (the stipend included in "given")
@@ -87,7 +115,7 @@ Print Assumptions C16_full_holds.
 (* bridge: the regenerated jump table / parameters meet the side conditions, and the
    rows agree with the model (writes exactly on SSTORE, LOG0-4, CREATE, CREATE2,
    SELFDESTRUCT; constant gas; halts/reverts/jumps flags; 0xfe invalid) *)
-Theorem C16_real_table_ok : writes_ok real_gas = true /\ stipend_ok real_gas = true.
+Theorem C16_real_table_ok : writes_ok real_gas = true /\ stipend_ok real_gas = true /\ no_resurrection real_gas = true.
 Proof. exact (table_ok_split real_gas real_table_ok). Qed.
 Print Assumptions C16_real_table_ok.
 
@@ -105,10 +133,15 @@ Definition ex_prog : prog :=
    (2, mkCode [ASstore 0 9; ARevert] 80);
    (3, mkCode [ACall KStatic 60000 (Base 4) 0 false] 90);
    (4, mkCode [ACall KCall 30000 (Base 9) 0 false; AReturn 0] 90);
-   (5, mkCode [ASelfdestruct (Base 5)] 30)].
+   (5, mkCode [ASelfdestruct (Base 5)] 30);
+   (* contract 6: first transaction of the block moves slot 0 away from its committed value 7;
+      the second puts 7 back and then delegate-calls code 7, which writes the slot and reverts *)
+   (6, mkCode [AIf 9 1 true 3; ASstore 0 7; ACall KDelegate 100000000 (Base 7) 0 false; ASstore 9 2; ANop 1;
+               AIf 9 0 true 2; ASstore 0 5; ASstore 9 1; ANop 1] 400);
+   (7, mkCode [ASstore 0 8; ARevert] 80)].
 Definition ex_state : state :=
-  mkSt [(Base 0, mkAcct 0 1000 0 [] [] false); (Base 1, mkAcct 1 10 1 [] [] false); (Base 2, mkAcct 1 0 2 [] [] false);
-        (Base 3, mkAcct 1 0 3 [] [] false); (Base 4, mkAcct 1 0 4 [] [] false); (Base 5, mkAcct 1 5 5 [] [] false)] [] 0 [].
+  mkSt [(Base 0, mkAcct 0 1000 0 [] [] [] false); (Base 1, mkAcct 1 10 1 [] [] [] false); (Base 2, mkAcct 1 0 2 [] [] [] false);
+        (Base 3, mkAcct 1 0 3 [] [] [] false); (Base 4, mkAcct 1 0 4 [] [] [] false); (Base 5, mkAcct 1 5 5 [] [] [] false); (Base 6, mkAcct 1 0 6 [] [] [(0, 7)] false)] [] 0 [] [].
 
 (* the inner frame (contract 2, entered with value 3) writes and reverts; the outer
    transaction reverts too; both are instances of theorem 1a with a frame that did
@@ -124,6 +157,19 @@ Proof.
   repeat constructor; cbn; intuition discriminate.
 Qed.
 Print Assumptions C16_nonvacuous_failed_frame.
+
+(* a block: slot 0 of contract 6 is 7 in the trie; transaction 1 sets it to 5 (parked in
+   the pending layer by Finalise); in transaction 2 the surviving frame sets it back to 7
+   and a nested DELEGATECALL frame writes 8 and reverts: the slot reads 7 afterwards, not
+   the 5 of the pending layer *)
+Example C16_nonvacuous_block :
+  let t := mkTx false (Base 0) (Base 6) 0 1000000 0 in
+  let s1 := block_state real_gas ex_prog 100 [t] ex_state in
+  let r := run_tx real_gas ex_prog 100 t s1 in
+  get_state (Base 6) 0 ex_state = 7 /\ get_state (Base 6) 0 s1 = 5 /\ get_committed (Base 6) 0 s1 = 5 /\ jrnl s1 = [] /\
+  r_status r = Done /\ get_state (Base 6) 0 (r_st r) = 7 /\ get_committed (Base 6) 0 (r_st r) = 5 /\ get_state (Base 6) 9 (r_st r) = 2.
+Proof. vm_compute. repeat split; reflexivity. Qed.
+Print Assumptions C16_nonvacuous_block.
 
 (* a STATICCALL whose callee calls a missing address: succeeds, and the only
    difference is the materialised empty account - which is why theorem 2 is stated
